@@ -60,8 +60,8 @@ PROFILES = {
     "ALL": {"w": _p(fault=0), "clients": (1, 3), "fault_rate": 0.08},
 }
 
-ALPHAS = [(0.3, 0.0), (0.5, 0.0), (-0.4, 0.3), (0.0, 0.6), (0.25, -0.45), (-0.7, 0.0), (0.9, 0.4), (-1.147, 1.031)]
-ZETAS = [(0.2, 0.0), (0.0, 0.3), (-0.25, 0.2), (0.35, -0.1), (0.426, 0.517)]
+ALPHAS = [(0.0, 0.0), (0.3, 0.0), (0.5, 0.0), (-0.4, 0.3), (0.0, 0.6), (0.25, -0.45), (-0.7, 0.0), (0.9, 0.4), (-1.147, 1.031)]
+ZETAS = [(0.0, 0.0), (0.2, 0.0), (0.0, 0.3), (-0.25, 0.2), (0.35, -0.1), (0.426, 0.517)]
 
 
 class Gen:
@@ -116,10 +116,14 @@ class Gen:
             pol = rng.choice(["H", "H", "V", "R", "L"]) if not self.prof.get("equal_values") else rng.choice(["H", "H", "V"])
         if dims is None and rng.random() < 0.35:
             dims = fock + rng.choice([1, 2, 3])
+            if rng.random() < 0.12:
+                dims = rng.randint(8, 16)  # a larger (still realistic) cut-off now and then
         self.client_envs.setdefault(client, []).append(name)
         r = {"do": "mk_env", "name": name, "client": client, "fock": fock, "pol": pol}
         if dims:
             r["dims"] = dims
+        if rng.random() < 0.25:
+            r["explicit"] = True  # Envelope(fock=Fock(), polarization=Polarization(label))
         return r
 
     def _new_custom(self, client, d=None):
@@ -597,7 +601,10 @@ class Gen:
         dims = [pre.sub[n]["dims"] for n in on]
         if any(d <= 0 for d in dims) or int(np.prod(dims)) > 24 or self._merged_dim(pre, on) > 160:
             return None
-        return {"do": "kraus", "entry": entry, "ch": self._chan(dims), "on": on, "arr": self.rng.choice(["jnp", "jnp", "np"]), **extra}
+        r = {"do": "kraus", "entry": entry, "ch": self._chan(dims), "on": on, "arr": self.rng.choice(["jnp", "jnp", "np"]), **extra}
+        if entry in ("state", "ce") and self.rng.random() < 0.2:
+            r["idc"] = False  # identity_check=False: the (complete) set must be applied all the same
+        return r
 
     def _mset(self, dims):
         rng = self.rng
